@@ -64,10 +64,19 @@ func I64(shape []int, xs ...int64) *val.V {
 func RandF32(r *rng.R, shape []int, lo, hi float64) *val.V {
 	n := val.NElems(shape)
 	v := &val.V{DT: val.Float32, Shape: append([]int{}, shape...), Bits: make([]uint64, n)}
+	// half of the tensors hold "tame" multiples of 1/8 (sums stay exact, results are easy to read in reports), the
+	// other half values with a full random mantissa, so that a changed order of floating-point additions
+	// (blocked, parallel or re-associated kernels) changes result bits
+	tame := r.Bool()
 	for i := range v.Bits {
-		steps := int((hi - lo) * 8)
-		x := lo + float64(r.Intn(steps+1))/8
-		v.Bits[i] = uint64(math.Float32bits(float32(x)))
+		if tame {
+			steps := int((hi - lo) * 8)
+			x := lo + float64(r.Intn(steps+1))/8
+			v.Bits[i] = uint64(math.Float32bits(float32(x)))
+		} else {
+			x := lo + (hi-lo)*float64(r.U64()>>40)/float64(1<<24)
+			v.Bits[i] = uint64(math.Float32bits(float32(x)))
+		}
 	}
 	return v
 }
@@ -183,6 +192,14 @@ func Templates() []Template {
 			dt := dts[rw.Intn(len(dts))]
 			wshape := pick(rw, []int{3}, []int{1, 3}, []int{2, 3}, []int{1}, []int{2, 1}, []int{1, 1, 3}, []int{1, 2, 3})
 			x := RandOf(rd, dt, []int{b, 2, 3})
+			xAxis := 0
+			if rw.Chance(1, 5) {
+				// no broadcasting needed at all: the data operand has exactly the weight's shape (and no batch axis), so
+				// the broadcast helpers hand their arguments back unchanged
+				wshape = pick(rw, []int{3}, []int{2, 3}, []int{1, 3})
+				x = RandOf(rd, dt, wshape)
+				xAxis = -1
+			}
 			y := RandOf(rw, dt, wshape)
 			if op == "Div" && dt != val.Float32 && dt != val.Float64 {
 				for i := range y.Bits {
@@ -191,10 +208,10 @@ func Templates() []Template {
 					}
 				}
 			}
-			ops := []Operand{data(x, 0), weight(y)}
+			ops := []Operand{data(x, xAxis), weight(y)}
 			if op != "PRelu" && rw.Chance(1, 4) {
 				// weight first, data second (bidirectional broadcast)
-				ops = []Operand{weight(y), data(x, 0)}
+				ops = []Operand{weight(y), data(x, xAxis)}
 			}
 			return OpCase{Op: op, Operands: ops, Outs: []string{"y"}}
 		}}
@@ -352,7 +369,9 @@ func Templates() []Template {
 	ts = append(ts, Template{Name: "Gemm", Sensitive: true, Gen: func(rw, rd *rng.R, b int) OpCase {
 		transA, transB := rw.Chance(1, 3), rw.Bool()
 		dt := pick(rw, val.Float32, val.Float32, val.Float32, val.Float32, val.Float32, val.Float64)
-		k, n := pick(rw, 3, 3, 4), pick(rw, 2, 2, 5)
+		// the inner dimension occasionally crosses the thresholds at which implementations switch to blocked,
+		// vectorised or parallel kernels (64, 128, 512)
+		k, n := pick(rw, 3, 3, 4, 3, 4, 3, 70, 130, 520), pick(rw, 2, 2, 5)
 		var attrs []mb.Attr
 		ashape, aaxis := []int{b, k}, 0
 		if transA {
@@ -372,7 +391,7 @@ func Templates() []Template {
 		}
 		ops := []Operand{data(RandOf(rd, dt, ashape), aaxis), weight(RandOf(rw, dt, bshape))}
 		if rw.Chance(3, 4) {
-			ops = append(ops, weight(RandOf(rw, dt, pick(rw, []int{n}, []int{1, n}, []int{1}))))
+			ops = append(ops, weight(RandOf(rw, dt, pick(rw, []int{n}, []int{1, n}, []int{1}, []int{b, n}))))
 		}
 		return OpCase{Op: "Gemm", Attrs: attrs, Operands: ops, Outs: []string{"y"}}
 	}})
@@ -423,7 +442,12 @@ func Templates() []Template {
 			off[i] = float32(rw.Range(-8, 8)) / 4
 			sc[i] = float32(rw.Range(1, 8)) / 4
 		}
-		return OpCase{Op: "Scaler", Attrs: []mb.Attr{mb.AFloats("offset", off...), mb.AFloats("scale", sc...)}, Operands: []Operand{data(RandF32(rd, []int{b, 3}, -2, 2), 0)}, Outs: []string{"y"}}
+		x := data(RandF32(rd, []int{b, 3}, -2, 2), 0)
+		if rw.Chance(1, 4) {
+			// rank-1 input of exactly the attribute's length: nothing to broadcast
+			x = Operand{V: RandF32(rd, []int{n}, -2, 2), BatchAxis: -1}
+		}
+		return OpCase{Op: "Scaler", Attrs: []mb.Attr{mb.AFloats("offset", off...), mb.AFloats("scale", sc...)}, Operands: []Operand{x}, Outs: []string{"y"}}
 	}})
 	ts = append(ts, Template{Name: "Reshape", Sensitive: true, Gen: func(rw, rd *rng.R, b int) OpCase {
 		shp := pick(rw, []int64{-1, 6}, []int64{0, 3, 2}, []int64{0, -1}, []int64{-1, 2, 3})
